@@ -29,7 +29,7 @@ RULE = ("WRITE: an instrumented statement generator logs PULL(i) before yielding
         "grouped parsers of both integrations must have yielded every event of frames 1..j before the stall surfaces. "
         "Non-trivial: >= 3 frames and a stop/stall strictly inside the stream; distinct by (kind, configuration, k or j).")
 ASSUMPTIONS = [
-    "frame_size is the value the caller passed in SerializerOptions",
+    "frame_size is the value the caller passed in SerializerOptions, or (a quarter of the cases) to the flow instance handed over in SerializerOptions.flow",
     "leading empty frames are not counted as 'frame 1' on the parse side: finding the first non-empty frame (options) is by design a read-ahead that withholds no statement",
     "no wall-clock verdicts: the socket source raises Stalled only when the writer has declared itself idle and select() reports nothing readable",
 ]
@@ -65,7 +65,16 @@ def make_statements(rng, n: int, arity: int, mode: str):
 
 
 def frames_iter(integ: str, cfg: dict, stmts_iter, entry: str):
-    options = pj.make_options(cfg)
+    if cfg.get("flow_instance"):
+        # the frame size is given by handing over a flow INSTANCE; options.frame_size keeps its default of 250
+        from pyjelly.serialize import flows as F
+        cls = getattr(F, cfg["flow_instance"])
+        kw = {"frame_size": cfg["frame_size"]}
+        if cfg["flow_instance"] == "BoundedFrameFlow":
+            kw["logical_type"] = pj.FLAT_LOGICAL[cfg["physical"]]
+        options = pj.make_options(dict(cfg, frame_size=250), flow=cls(**kw))
+    else:
+        options = pj.make_options(cfg)
     mod = gser if integ == "generic" else rser
     if entry == "flat_stream_to_frames":
         return mod.flat_stream_to_frames(stmts_iter, options)
@@ -252,12 +261,17 @@ def write_case(ctx, rng):
     logical = rng.choice([pj.FLAT_LOGICAL[phys], pj.FLAT_LOGICAL[phys], 0])
     cfg = {"physical": phys, "frame_size": fs, "preset": gen.preset_for(rng, stmts, phys), "logical": logical,
            "delimited": True, "generalized": mode == "generic", "rdf_star": mode == "generic"}
+    if rng.random() < .25:
+        cfg["flow_instance"] = rng.choice(["FlatTriplesFrameFlow" if phys == 1 else "FlatQuadsFrameFlow", "BoundedFrameFlow"])
+        cfg["logical"] = pj.FLAT_LOGICAL[phys]
+        logical = cfg["logical"]
+        ctx.observe("write:frame-size-through-flow-instance")
     ks = sorted({1, 2, rng.randint(1, 6), rng.randint(2, 12)})
     ws = check_write(integ, cfg, stmts, entry, ks)
     ctx.observe("write-runs", 1 + len(ks))
     ctx.observe("pull-events", len(stmts) * 2)
     ctx.observe(f"write:{integ}:phys{phys}:{'unspecified-logical' if logical == 0 else 'flat-logical'}")
-    if phys != 3 and logical != 0:
+    if phys != 3 and logical != 0 and not cfg.get("flow_instance"):
         fs_ws = check_file_sink(integ, cfg, stmts)
         ctx.observe("file-sink-runs")
         for w in fs_ws:
